@@ -442,9 +442,18 @@ func (w *World) reflectGuards(P string) {
 
 // boundsDiscipline scans package exec for non-constant slice/index expressions.
 func (w *World) boundsDiscipline(P string, f *Facts, r *Roles) {
-	allow := map[string]string{
-		"execLiteral":                   "literal[1:len-1]: the Literal tokens (singlequote/doublequote) are delimited by two quote characters, so len >= 2",
-		"execNodeTestNodeTypeNoArgTest": "nodeType[:LastIndex(\"(\")]: the production NodeType \"(\" \")\" contains the parenthesis",
+	// allow-listed by role (the handler of a production whose token shape gives the bound), never by function name
+	allowNT := map[string]string{
+		"Literal":                   "literal[1:len-1]: the Literal tokens (singlequote/doublequote) are delimited by two quote characters, so len >= 2",
+		"NodeTestNodeTypeNoArgTest": "nodeType[:LastIndex(\"(\")]: the production NodeType \"(\" \")\" contains the parenthesis",
+	}
+	allow := map[string]string{}
+	for fn, nts := range f.handlersByFn() {
+		for _, nt := range nts {
+			if why, ok := allowNT[nt]; ok {
+				allow[fn.String()] = why
+			}
+		}
 	}
 	n := 0
 	w.forAllFuncs("exec", func(fn *ssa.Function) {
@@ -482,11 +491,15 @@ func (w *World) boundsDiscipline(P string, f *Facts, r *Roles) {
 						continue
 					}
 					n++
-					okLen := lenAtLeast(in.Block(), base, k+1)
+					need := k + 1
+					if kind == "slice" {
+						need = k // s[k:] and s[:k] are valid when len(s) == k
+					}
+					okLen := need == 0 || lenAtLeast(in.Block(), base, need)
 					where := "in this function"
 					if !okLen {
 						if p, isParam := base.(*ssa.Parameter); isParam {
-							okLen, where = w.allCallersGuaranteeLen(fn, p, k+1), "at every call site"
+							okLen, where = w.allCallersGuaranteeLen(fn, p, need), "at every call site"
 						}
 					}
 					w.check(P, "R15.3", fmt.Sprintf("constant index into a node-set in %s", fn.Name()), in.Pos(), okLen, fmt.Sprintf("element %d is read; the node-set is known to have more than %d elements %s: %v (an empty node-set makes a well-typed query fail with 'xpath query panic')", k, k, where, okLen))
@@ -504,6 +517,8 @@ func (w *World) boundsDiscipline(P string, f *Facts, r *Roles) {
 					}
 				case lenGuarded(in.Block(), idx, base):
 					why = "guarded by a comparison with the length"
+				case kind == "slice" && leLen(idx, base, in.Block(), map[ssa.Value]bool{}, 0):
+					why = "slice bound proven <= len by induction (0, +1 under a `< len` guard, + a scan length of the remaining suffix)"
 				case isPosEqGuardedSlice(in, idx):
 					why = "search index used on the matching path"
 				case isIndexCallResult(idx) && nonNegativeGuard(in.Block(), idx):
@@ -519,7 +534,7 @@ func (w *World) boundsDiscipline(P string, f *Facts, r *Roles) {
 					}
 				}
 				if why == "" {
-					if a, ok := allow[fn.Name()]; ok {
+					if a, ok := allow[fn.String()]; ok {
 						why = "allow-listed by role: " + a
 					}
 				}
@@ -552,31 +567,92 @@ func isCursorSlice(t types.Type, r *Roles) bool {
 
 // lenAtLeast: block b is reached only when len(base) >= n was established.
 func lenAtLeast(b *ssa.BasicBlock, base ssa.Value, n int64) bool {
-	for _, a := range guardAtoms(b) {
-		bo, ok := a.V.(*ssa.BinOp)
-		if !ok {
-			continue
-		}
-		c, ok := bo.X.(*ssa.Call)
-		if !ok || !isLenOf(c, nil) || stripConv(c.Call.Args[0]) != stripConv(base) {
-			continue
-		}
-		k, isK := constInt(bo.Y)
-		if !isK {
-			continue
-		}
-		switch {
-		case bo.Op == token.EQL && !a.Pol && k == 0 && n == 1,
-			bo.Op == token.NEQ && a.Pol && k == 0 && n == 1,
-			bo.Op == token.GTR && a.Pol && k+1 >= n,
-			bo.Op == token.GEQ && a.Pol && k >= n,
-			bo.Op == token.EQL && a.Pol && k >= n,
-			bo.Op == token.LSS && !a.Pol && k >= n,
-			bo.Op == token.NEQ && !a.Pol && k >= n:
-			return true
+	min, ok := minFeasible(guardAtoms(b), func(v ssa.Value) bool {
+		c, ok := stripConv(v).(*ssa.Call)
+		return ok && isLenOf(c, nil) && stripConv(c.Call.Args[0]) == stripConv(base)
+	})
+	return ok && min >= n
+}
+
+// minFeasible evaluates the guards that compare the subject (an integer-valued expression recognised by isSubject,
+// also through variables that merely hold it) with constants for every candidate value 0..32 and returns the
+// smallest value that satisfies all of them: exact for any mix of ==, !=, <, <=, >, >= in either operand order.
+func minFeasible(atoms []atom, isSubject func(ssa.Value) bool) (int64, bool) {
+	cons, _ := intConstraints(atoms, isSubject)
+	if len(cons) == 0 {
+		return 0, true
+	}
+	for v := int64(0); v <= 32; v++ {
+		if satisfies(cons, v) {
+			return v, true
 		}
 	}
-	return false
+	return 0, false // no feasible value: the block is unreachable
+}
+
+type intCon struct {
+	op   token.Token
+	k    int64
+	pol  bool
+	flip bool
+}
+
+// intConstraints extracts the comparisons of the subject with constants; pure reports that the atoms contain
+// nothing else (phis of short-circuit conditions, which guardAtoms lists next to their expansion, aside).
+func intConstraints(atoms []atom, isSubject func(ssa.Value) bool) (cons []intCon, pure bool) {
+	pure = true
+	for _, a := range atoms {
+		if _, isPhi := a.V.(*ssa.Phi); isPhi {
+			continue
+		}
+		bo, ok := a.V.(*ssa.BinOp)
+		if !ok {
+			pure = false
+			continue
+		}
+		switch bo.Op {
+		case token.EQL, token.NEQ, token.LSS, token.LEQ, token.GTR, token.GEQ:
+		default:
+			pure = false
+			continue
+		}
+		if k, isK := constInt(bo.Y); isK && isSubject(bo.X) {
+			cons = append(cons, intCon{bo.Op, k, a.Pol, false})
+		} else if k, isK := constInt(bo.X); isK && isSubject(bo.Y) {
+			cons = append(cons, intCon{bo.Op, k, a.Pol, true})
+		} else {
+			pure = false
+		}
+	}
+	return
+}
+
+func satisfies(cons []intCon, v int64) bool {
+	for _, c := range cons {
+		x, y := v, c.k
+		if c.flip {
+			x, y = c.k, v
+		}
+		r := false
+		switch c.op {
+		case token.EQL:
+			r = x == y
+		case token.NEQ:
+			r = x != y
+		case token.LSS:
+			r = x < y
+		case token.LEQ:
+			r = x <= y
+		case token.GTR:
+			r = x > y
+		case token.GEQ:
+			r = x >= y
+		}
+		if r != c.pol {
+			return false
+		}
+	}
+	return true
 }
 
 // allCallersGuaranteeLen: every static call of fn in package exec passes for parameter p a value whose length
@@ -732,6 +808,113 @@ func lenGuarded(b *ssa.BasicBlock, idx, base ssa.Value) bool {
 		}
 	}
 	return false
+}
+
+// sameInt: the same integer value (identical SSA value, or equal constants).
+func sameInt(a, b ssa.Value) bool {
+	if sameVal(a, b) {
+		return true
+	}
+	ka, ok1 := constInt(a)
+	kb, ok2 := constInt(b)
+	return ok1 && ok2 && ka == kb
+}
+
+// ltLen: block b is reached only when v < len(base).
+func ltLen(b *ssa.BasicBlock, v, base ssa.Value) bool {
+	for _, a := range guardAtoms(b) {
+		bo, ok := a.V.(*ssa.BinOp)
+		if !ok {
+			continue
+		}
+		if sameInt(bo.X, v) && isLenOfSame(bo.Y, base) && ((bo.Op == token.LSS && a.Pol) || (bo.Op == token.GEQ && !a.Pol)) {
+			return true
+		}
+		if sameInt(bo.Y, v) && isLenOfSame(bo.X, base) && ((bo.Op == token.GTR && a.Pol) || (bo.Op == token.LEQ && !a.Pol)) {
+			return true
+		}
+	}
+	return false
+}
+
+func isLenOfSame(v, base ssa.Value) bool {
+	c, ok := v.(*ssa.Call)
+	if !ok || !isLenOf(c, nil) {
+		return false
+	}
+	return stripConv(c.Call.Args[0]) == stripConv(base)
+}
+
+// leLen proves 0 <= v <= len(base) at block b by induction over the value:
+//   - the constant 0;
+//   - a phi all of whose incoming values are proven at the end of their predecessor;
+//   - x + 1 where the block is reached only under x < len(base);
+//   - x + g(base[x:]) where x is proven and g returns a value proven <= len of its parameter (a scan length).
+func leLen(v, base ssa.Value, b *ssa.BasicBlock, inProgress map[ssa.Value]bool, depth int) bool {
+	if depth > 12 {
+		return false
+	}
+	v = stripConv(v)
+	if k, ok := constInt(v); ok {
+		return k == 0 || lenAtLeast(b, base, k)
+	}
+	switch x := v.(type) {
+	case *ssa.Phi:
+		if inProgress[x] {
+			return true // induction hypothesis
+		}
+		inProgress[x] = true
+		defer delete(inProgress, x)
+		for i, e := range x.Edges {
+			if !leLen(e, base, x.Block().Preds[i], inProgress, depth+1) {
+				return false
+			}
+		}
+		return true
+	case *ssa.BinOp:
+		if x.Op != token.ADD {
+			return false
+		}
+		for _, pair := range [][2]ssa.Value{{x.X, x.Y}, {x.Y, x.X}} {
+			l, r := pair[0], pair[1]
+			if k, ok := constInt(r); ok && k == 1 {
+				// the guard may sit on the block of the addition or on the block under examination
+				if ltLen(x.Block(), l, base) || ltLen(b, l, base) {
+					return true
+				}
+			}
+			if c, ok := stripConv(r).(*ssa.Call); ok {
+				g := staticCallee(c)
+				if g != nil && inRepo(g) && len(g.Params) == 1 && len(c.Call.Args) == 1 {
+					if sl, ok := c.Call.Args[0].(*ssa.Slice); ok && stripConv(sl.X) == stripConv(base) && sl.High == nil && sl.Low != nil && sameInt(sl.Low, l) {
+						if leLen(l, base, x.Block(), inProgress, depth+1) && returnsLeLenOfParam(g) {
+							return true
+						}
+					}
+				}
+			}
+		}
+	}
+	return false
+}
+
+// returnsLeLenOfParam: every value g returns is proven <= len(its only parameter).
+func returnsLeLenOfParam(g *ssa.Function) bool {
+	if g.Signature.Results().Len() != 1 || len(g.Blocks) == 0 {
+		return false
+	}
+	ok, n := true, 0
+	allInstrs(g, func(in ssa.Instruction) {
+		ret, isRet := in.(*ssa.Return)
+		if !isRet {
+			return
+		}
+		n++
+		if !leLen(ret.Results[0], g.Params[0], ret.Block(), map[ssa.Value]bool{}, 0) {
+			ok = false
+		}
+	})
+	return ok && n > 0
 }
 
 func isPosEqGuardedSlice(in ssa.Instruction, idx ssa.Value) bool {
